@@ -31,7 +31,7 @@ JoinPath(p) == IF p = <<>> THEN "" ELSE IF Len(p) = 1 THEN p[1] ELSE p[1] \o "/"
 
 (* laws *)
 NoDots(p)   == \A i \in 1..Len(p) : p[i] \notin {".", ".."}
-Idempotent(base, rel, abs) == Normalize(ResolvePath(base, rel, abs)) = ResolvePath(base, rel, abs)
+PathIdempotent(base, rel, abs) == Normalize(ResolvePath(base, rel, abs)) = ResolvePath(base, rel, abs)
 NeverAboveRoot(base, rel, abs) == NoDots(ResolvePath(base, rel, abs))
 AbsIgnoresBase(b1, b2, rel) == ResolvePath(b1, rel, TRUE) = ResolvePath(b2, rel, TRUE)
 DotIsIdentity(base, rel, abs) == ResolvePath(base, <<".">> \o rel, abs) = ResolvePath(base, rel, abs)
